@@ -280,7 +280,9 @@ def _k5_audit(self, cuts, result):
             X = X.reshape(-1, 1)
         key = (id(self._X), X.shape)
         tol = _TOL_CACHE.get(key)
-        if tol is None or tol.Xl.shape != X.shape or not np.array_equal(tol.Xl[:1], X[:1].astype(tol.Xl.dtype)):
+        # the cache must be validated by content: the pooled-surroundings cost of a local anomaly
+        # score is refitted per cut on arrays that share id, shape and leading rows
+        if tol is None or tol.Xl.shape != X.shape or not np.array_equal(tol.Xl, X.astype(tol.Xl.dtype)):
             tol = M.DataTol(X)
             _TOL_CACHE.clear()
             _TOL_CACHE[key] = tol
